@@ -205,14 +205,29 @@ def run(ck):
                                 ok = False
             ck.check(ok, "C20.R5", "ph_grads:aux_bias segment is zero", prog.method("DensityMatrix", "ph_grads").site(), "the assembled phase gradient has a non-zero auxiliary-bias segment")
     with ck.guard("C20.R5", "all-Z branch"):
-        g = prog.method("NeuralStateBase", "gradient")
-        import ast
+        # decided on values: on every path of gradient(samples, bases) that finds no rotated site in a group, that group's
+        # contribution to the phase gradient is zero (whatever the spelling: a literal 0, nothing added, a zero tensor)
+        from .c03 import stub_rotated
 
-        lits = []
-        for n in ast.walk(g.node):
-            if isinstance(n, ast.List) and len(n.elts) == 2 and isinstance(n.elts[1], ast.Constant):
-                lits.append(n.elts[1].value)
-        ck.check(lits == [0.0] or lits == [0], "C20.R5", "reference-basis rows contribute no phase gradient", g.site(), "the all-Z branch contributes %s to the phase gradient, expected the literal 0" % lits)
+        g = prog.method("NeuralStateBase", "gradient")
+        n_ref = 0
+        for cls in ("ComplexWaveFunction", "DensityMatrix"):
+            def thz(it, cls=cls):
+                s = make_state(it, cls)
+                return s, call(it, s, "gradient", tens(it, "S", ("B", "nv")), api.bases_arr(it, "bases", "B"))
+
+            for p in [q for q in paths_of(prog, thz, sticky=True, max_paths=20, stubs={cls + ".rotated_gradient": stub_rotated}) if q.outcome == "return"]:
+                if some_selected(p, "NeuralStateBase.gradient") is not False:
+                    continue
+                n_ref += 1
+                items = p.interp.concrete_items(p.value[1])
+                t1 = items[1].term if items is not None and len(items) > 1 and isinstance(items[1], VTens) else None
+                at1 = t1.single_atom() if t1 is not None else None
+                zero = t1 is not None and (t1.is_zero() or (at1 is not None and isinstance(at1, T.App) and at1.op == "accum" and at1.args[2].is_zero() and at1.args[3].is_zero()))
+                ck.check(True if zero else (None if t1 is None else False), "C20.R5", "reference-basis rows contribute no phase gradient/%s" % cls, g.site(),
+                         "a group measured in the reference basis adds %r to the phase gradient, expected nothing" % (t1,))
+        if n_ref == 0:
+            ck.undecided("C20.R5", "reference-basis rows contribute no phase gradient", g.site(), "no path of gradient() handles a group without rotated sites")
     ck.require_min("C20.R1", 6)
     ck.require_min("C20.R2", 12)
     ck.require_min("C20.R3", 30)
